@@ -188,6 +188,7 @@ class SchedRun:
                 c = w.connect(addr=("127.0.0.1", 40000 + ci), listener=cs.get("listener", 0))
             c.capacity = cs.get("capacity")
             c.client_reads = False
+            c.sticky = bool(cs.get("sticky_faults"))
             for k, v in (cs.get("faults") or {}).items():
                 op, idx = k.split(":")
                 c.faults[(op, int(idx))] = v if v in ("EOF", "generic") else getattr(errno, v)
